@@ -1,6 +1,6 @@
 (* C03 - IPC: death of the peer at any point is detected and fully cleaned up.  Only statements + `exact`. *)
 Require Import ZArith List Bool.
-Require Import Verif.gen.Consts_ipcdeath Verif.IpcDeathModel Verif.IpcDeathProofs Verif.IpcDeathProofs2.
+Require Import Verif.gen.Consts_ipcdeath Verif.IpcDeathModel Verif.IpcDeathProofs Verif.IpcDeathProofs2 Verif.IpcDeathProofs3.
 Import ListNotations.
 Open Scope Z_scope.
 
@@ -89,7 +89,29 @@ Proof. exact disconnect_forces. Qed.
 Example C03_dead_env_exists : forall rq eq, dead_server rq eq (dead_env_shm rq eq).
 Proof. exact dead_env_shm_dead. Qed.
 
+(* "KEEPS SERVING ITS OTHER CLIENTS" vs. the socket transport's connect-on-send retry (_finish_connecting: up to
+   FC_RETRIES connect() attempts FC_SLEEP_MS apart for every response/event to a client whose socket is gone).
+   Reading adopted: a bounded delay is not a failure to serve.  The bound: one attempt ends after at most
+   FC_RETRIES * FC_SLEEP_MS (= 1 s) whatever connect() answers; in the pass in which the server notices the death it hands
+   at most min(queued, MAX_RECV_MSGS) of the dead client's requests to msg_process, so the other clients wait at most
+   n * 1 s, once per dead client (the liveliness handler of the same pass disconnects it: C03_client_death).
+   The shm transport's INFINITE wait for wake-up bytes (phase PStalled) has no such bound for a client that is stopped
+   but alive - that is outside C03 (no death); the death itself ends the wait (finish_wakeup_read, C03_client_death). *)
+Theorem C03_connect_on_send_bounded : forall conn_ok,
+  exists ok ms, finish_connecting 10 0 conn_ok 0 = Some (ok, ms) /\ 0 <= ms <= FC_RETRIES * FC_SLEEP_MS.
+Proof. exact finish_connecting_bound. Qed.
+Theorem C03_dead_client_stall_bounded : forall (Fr : Type) (pin : bool) (s : st Fr) conn_ok, 0 <= k_reqq s ->
+  exists n ms, 0 <= n <= D_MAX_RECV_MSGS /\ n <= k_reqq s /\
+    log (dispatch_request Sock pin false s) = log s ++ msgs_n n /\
+    stall_of_sends (Z.to_nat n) conn_ok = Some ms /\
+    0 <= ms <= n * (FC_RETRIES * FC_SLEEP_MS).
+Proof. exact dead_client_stall_bounded. Qed.
+Example C03_stall_three_requests :
+  stall_of_sends 3 (fun _ _ => false) = Some 3000.
+Proof. vm_compute. reflexivity. Qed.
+
 Print Assumptions C03_client_death.
+Print Assumptions C03_dead_client_stall_bounded.
 Print Assumptions C03_recv_deadline.
 Print Assumptions C03_sendv_recv_bounded.
 Print Assumptions C03_event_recv_bounded.
